@@ -29,6 +29,8 @@ CONSTANTS
   IOModes,     \* modes offered to the virtual INPUT / OUTPUT operators
   Share,       \* "none" | "tensor" | "buffer": constants may be shared between ops
   Dup,         \* "no" | "only" | "both": a subgraph may list one tensor twice among its outputs (return y, y)
+  SigOrder,    \* "same" | "rev" | "both": a signature lists its inputs / outputs in the order of the subgraph's lists or reversed
+               \*   (the converter sorts signature entries by name, so any order is legal)
   Layout,      \* "alloc" | "actsfirst" | "both": order of the tensor table - as allocated by the build phase (constants
                \*   right before the operator's outputs, what a converter emits), or all activations before all constants
   Fixes        \* set of repairs present in the code being modelled (DESIGN 6):
@@ -96,6 +98,7 @@ Sig(k) == CASE k = "FC"      -> <<"act", "w", "b?">>
             [] k = "BMM"     -> <<"act", "w">>
             [] k = "EMB"     -> <<"aux", "w">>
             [] k = "EW2"     -> <<"x", "x">>
+            [] k = "UNSUP2"  -> <<"x", "x">>      \* a binary operator the quantizer does not know (MAXIMUM, MINIMUM)
             [] k = "CONCAT"  -> <<"x", "x">>
             [] k = "CONCAT3" -> <<"x", "x", "x">>
             [] k = "EW1A"    -> <<"act", "aux">>
@@ -168,7 +171,7 @@ OutShape(s, k, sel) ==
       shs == {ShapeOf(s, T(sel[j])) : j \in acts}
   IN CASE k = "EMB" -> <<TRUE, <<0, 0>>>>
        [] k = "EW1A" -> <<TRUE, <<0, 0>>>>
-       [] k = "EW2" -> IF acts = {} THEN <<FALSE, <<0, 0>>>>
+       [] k \in {"EW2", "UNSUP2"} -> IF acts = {} THEN <<FALSE, <<0, 0>>>>
                        ELSE LET ns == {x[1] : x \in shs} IN
                             <<Cardinality(ns \ {1}) <= 1, <<MaxS(ns), MaxS({x[2] : x \in shs})>>>>
        [] IsConcat(k) -> IF acts = {} THEN <<FALSE, <<0, 0>>>>
@@ -221,7 +224,14 @@ AddOp(k, sel) ==
   /\ UNCHANGED <<mode, inmode, outmode, qsv, prod, cons, order, R, bufw, qi, insts, pc, why>>
 
 EmptySub(nin) == [ops |-> <<>>, trole |-> [j \in 1..nin |-> "act"], tbuf |-> [j \in 1..nin |-> 0],
-                  tsh |-> [j \in 1..nin |-> <<1, 2>>], gins |-> [j \in 1..nin |-> j-1], gouts |-> <<>>]
+                  tsh |-> [j \in 1..nin |-> <<1, 2>>], gins |-> [j \in 1..nin |-> j-1], gouts |-> <<>>, sigrev |-> FALSE]
+
+SigRevs == (IF SigOrder = "rev" THEN {} ELSE {FALSE}) \cup (IF SigOrder = "same" THEN {} ELSE {TRUE})
+Rev(q) == [k \in 1..Len(q) |-> q[Len(q) - k + 1]]
+\* the tensors a signature names, in the signature's own order
+SigOuts(g) == IF g.sigrev THEN Rev(g.gouts) ELSE g.gouts
+SigIns(g) == IF g.sigrev THEN Rev(g.gins) ELSE g.gins
+SigPos(g, n) == [k \in 1..n |-> IF g.sigrev THEN n - k + 1 ELSE k]
 
 NewSub(nin) ==
   /\ pc = "build" /\ NSub < MaxSub /\ NOpsOf(CurS) >= 1 /\ TotalOps < MaxOps
@@ -258,7 +268,7 @@ Sealed(G1, mc, im, om) ==
   /\ R' = [s \in 1..Len(G1) |->
              [ops |-> [i \in 1..Len(G1[s].ops) |-> [ins |-> G1[s].ops[i].ins, outs |-> G1[s].ops[i].outs, orig |-> i-1, qk |-> "-"]],
               outs |-> G1[s].gouts,
-              sigout |-> G1[s].gouts,
+              sigout |-> SigOuts(G1[s]),
               dt |-> [t \in 1..Len(G1[s].trole) |-> IF G1[s].trole[t] = "aux" THEN "i32" ELSE "f32"],
               par |-> [t \in 1..Len(G1[s].trole) |-> NoPar],
               nm |-> [t \in 1..Len(G1[s].trole) |-> <<t-1>>],
@@ -281,14 +291,14 @@ ActsFirst(g) ==
       tbuf |-> [p \in 1..n |-> g.tbuf[neworder[p]+1]],
       tsh |-> [p \in 1..n |-> g.tsh[neworder[p]+1]],
       gins |-> [j \in 1..Len(g.gins) |-> perm(g.gins[j])],
-      gouts |-> [j \in 1..Len(g.gouts) |-> perm(g.gouts[j])]]
+      gouts |-> [j \in 1..Len(g.gouts) |-> perm(g.gouts[j])], sigrev |-> g.sigrev]
 Layouts == (IF Layout = "actsfirst" THEN {} ELSE {"alloc"}) \cup (IF Layout = "alloc" THEN {} ELSE {"actsfirst"})
 Laid(g, lay) == IF lay = "alloc" THEN g ELSE ActsFirst(g)
 
 Seal ==
   /\ pc = "build" /\ NOpsOf(CurS) >= 1 /\ \A s \in 1..NSub : InputsUsed(s)
-  /\ \E oc \in OutChoices(1) : \E mc \in ModeChoices(1) : \E im \in IOModes : \E om \in IOModes : \E lay \in Layouts :
-       Sealed([s \in 1..NSub |-> Laid([G[s] EXCEPT !.gouts = oc[s]], lay)], mc, im, om)
+  /\ \E oc \in OutChoices(1) : \E mc \in ModeChoices(1) : \E im \in IOModes : \E om \in IOModes : \E lay \in Layouts : \E sr \in SigRevs :
+       Sealed([s \in 1..NSub |-> Laid([G[s] EXCEPT !.gouts = oc[s], !.sigrev = sr], lay)], mc, im, om)
   /\ UNCHANGED nbufg
 
 \* ------------------------------------------------------------------ materialiser
@@ -337,7 +347,7 @@ MatOp(s, i, q) ==
              IN << <<o.ins[a], TRUE, nq>>, <<o.ins[wPos], TRUE, Entry(id, "ADQ", <<"F16", BufOf(s, o.ins[wPos])>>)>>,
                    <<o.outs[1], FALSE, nq>> >>
                 \o (IF b <= Len(o.ins) /\ o.ins[b] # -1 THEN << <<o.ins[b], TRUE, nq>> >> ELSE <<>>)
-  IN IF k = "UNSUP" \/ m.m = "NOQ" THEN allNQ
+  IN IF k \in {"UNSUP", "UNSUP2"} \/ m.m = "NOQ" THEN allNQ
      ELSE IF m.m = "F16" THEN f16
      ELSE mm
 
@@ -594,7 +604,7 @@ GX == [s \in 1..NSub |->
         [ops |-> [i \in 1..NOpsOf(s) |-> [kind |-> G[s].ops[i].kind, ins |-> G[s].ops[i].ins, outs |-> G[s].ops[i].outs,
                                            sig |-> <<G[s].ops[i].kind, i>>]],
          trole |-> G[s].trole, gins |-> G[s].gins, gouts |-> G[s].gouts,
-         siginpos |-> [k \in 1..Len(G[s].gins) |-> k], sigoutpos |-> [k \in 1..Len(G[s].gouts) |-> k],
+         siginpos |-> SigPos(G[s], Len(G[s].gins)), sigoutpos |-> SigPos(G[s], Len(G[s].gouts)),
          nm |-> [t \in 1..NT0(s) |-> <<t-1>>], shp |-> G[s].tsh,
          data |-> [t \in 1..NT0(s) |-> <<"orig", BufOf(s, t-1)>>],
          dt0 |-> [t \in 1..NT0(s) |-> IF Role(s, t-1) = "aux" THEN "i32" ELSE "f32"]]]
@@ -603,7 +613,7 @@ RX == [s \in 1..Len(R) |->
                     [ins |-> R[s].ops[k].ins, outs |-> R[s].ops[k].outs, orig |-> R[s].ops[k].orig, qk |-> R[s].ops[k].qk,
                      sig |-> IF R[s].ops[k].orig = -1 THEN <<"ins", 0>>
                              ELSE <<G[s].ops[R[s].ops[k].orig+1].kind, R[s].ops[k].orig+1>>]],
-         outs |-> R[s].outs, gins |-> G[s].gins, sigin |-> G[s].gins, sigout |-> R[s].sigout,
+         outs |-> R[s].outs, gins |-> G[s].gins, sigin |-> SigIns(G[s]), sigout |-> R[s].sigout,
          dt |-> R[s].dt, par |-> R[s].par, nm |-> R[s].nm, shp |-> R[s].shp,
          cst |-> [t \in 1..Len(R[s].dt) |-> t <= NT0(s) /\ (IsConst(s, t-1) \/ IsAux(s, t-1))],
          data |-> [t \in 1..NT0(s) |-> LET w == Writes(BufOf(s, t-1)) IN
